@@ -596,10 +596,6 @@ func roundTripSigned(c *mon.Case, b *built) bool {
 		if p == nil {
 			stage = "parse"
 		}
-		if id, ok := knownSignedDefect(b); ok && p != nil {
-			c.Known(id, "reject", "honest SignedData fails to %s: %v; message: %v", stage, err, b.spec)
-			return false
-		}
 		c.Detail("message", b.der)
 		c.Fail("reject", "honest SignedData fails to %s: %v; message: %v", stage, err, b.spec)
 		return false
@@ -672,63 +668,6 @@ func roundTripSigned(c *mon.Case, b *built) bool {
 		}
 	}
 	return true
-}
-
-// expectedSigOID mirrors the identifier a signer of this key and digest gets when it is the only signer.
-func expectedSigOID(g signerSpec) string {
-	switch {
-	case g.kind.isSM2():
-		return pkcs7.OIDDigestEncryptionAlgorithmSM2.String()
-	case g.kind.isRSA():
-		return map[string]asn1.ObjectIdentifier{"sha1": pkcs7.OIDEncryptionAlgorithmRSASHA1, "sha256": pkcs7.OIDEncryptionAlgorithmRSASHA256,
-			"sha384": pkcs7.OIDEncryptionAlgorithmRSASHA384, "sha512": pkcs7.OIDEncryptionAlgorithmRSASHA512}[g.digest].String()
-	}
-	return map[string]asn1.ObjectIdentifier{"sha1": pkcs7.OIDDigestAlgorithmECDSASHA1, "sha256": pkcs7.OIDDigestAlgorithmECDSASHA256,
-		"sha384": pkcs7.OIDDigestAlgorithmECDSASHA384, "sha512": pkcs7.OIDDigestAlgorithmECDSASHA512}[g.digest].String()
-}
-
-// knownSignedDefect recognises open findings (predicate on the message and a model of the wrong outcome).
-//
-// noattr-sticky-signature-oid: SignedData.SignWithoutAttr stores the signature algorithm identifier it
-// inferred for the first signer in the SignedData object and labels every later SignWithoutAttr signer
-// with it. Predicate: two or more signers without attributes whose identifiers differ in a way
-// verification depends on. Model: in the produced message the later signer carries the first one's identifier.
-func knownSignedDefect(b *built) (string, bool) {
-	s := b.spec
-	if s.api != "pkcs7" || b.der == nil {
-		return "", false
-	}
-	first := -1
-	var suspects []int
-	for i, g := range s.signers {
-		if !g.noAttr {
-			continue
-		}
-		if first < 0 {
-			first = i
-			continue
-		}
-		e0, ei := expectedSigOID(s.signers[first]), expectedSigOID(g)
-		if e0 != ei && !(rsaFamily[e0] && rsaFamily[ei]) {
-			suspects = append(suspects, i)
-		}
-	}
-	if len(suspects) == 0 {
-		return "", false
-	}
-	p, err := pkcs7.Parse(b.der)
-	if err != nil {
-		return "", false
-	}
-	for _, i := range suspects {
-		for _, si := range p.Signers {
-			if si.IssuerAndSerialNumber.SerialNumber != nil && si.IssuerAndSerialNumber.SerialNumber.Cmp(b.ees[i].cert.SerialNumber) == 0 &&
-				si.DigestEncryptionAlgorithm.Algorithm.String() == expectedSigOID(s.signers[first]) {
-				return "noattr-sticky-signature-oid", true
-			}
-		}
-	}
-	return "", false
 }
 
 // checkDERFixedPoints runs the BER normaliser on every element of a DER object.
@@ -809,7 +748,7 @@ func pickIssuer(r *mon.Rand, kind keyKind, trusted bool) issuerKind {
 
 // genSigned derives a message description from the template number t and random details.
 // Templates rotate through mode x (key, digest) first, then multi-signer and option variants.
-func genSigned(r *mon.Rand, t int, lens []int) signedSpec {
+func genSigned(r *mon.Rand, t int, lens []int, small bool) signedSpec {
 	const nModes = 6
 	nSingle := nModes * len(keyDigests)
 	nCfca := 3
@@ -857,27 +796,39 @@ func genSigned(r *mon.Rand, t int, lens []int) signedSpec {
 		v := t - nSingle - nCfca
 		n := 2 + v%2
 		setMode([]int{0, 1, 4, 0}[v%4])
-		noAttrAll := v%7 == 3
-		same := v%5 == 1 // all signers of one key/digest combination
-		first := r.Intn(len(keyDigests))
+		noAttrAll := v%7 == 3 || v%7 == 5
+		same := v%5 == 1           // all signers of one key/digest combination
+		compact := small && n == 3 // sweeps: three signers only with compact certificates and fast verification
+		pickKD := func() int {
+			for {
+				kd := r.Intn(len(keyDigests))
+				if k := keyDigests[kd].kind; small && k == kP384 || compact && k == kRSA2048 {
+					continue
+				}
+				return kd
+			}
+		}
+		first := pickKD()
 		for i := 0; i < n; i++ {
-			kd := r.Intn(len(keyDigests))
-			if same {
+			kd := pickKD()
+			if same || s.digestOnly {
+				// digest mode: one supplied digest serves every signer, so all use the same function
 				kd = first
 			}
 			sg := mk(kd)
-			if s.digestOnly {
-				// one supplied digest serves every signer: all must use a digest of that length and, without
-				// attributes, the same function
-				sg = mk(first)
+			if compact && sg.iss == iSM2Inter {
+				sg.iss = iSM2Root
 			}
-			sg.noAttr = noAttrAll
+			sg.noAttr = noAttrAll || r.Intn(3) == 0
 			sg.chain = r.Bool()
 			sg.xUnsigned = !sg.noAttr && r.Intn(4) == 0
 			s.signers = append(s.signers, sg)
 		}
 		s.sm = r.Bool()
-		s.extraCert = r.Intn(4) == 0
+		s.extraCert = r.Intn(4) == 0 && !(small && n == 3)
+		if small && n == 3 && s.n > 33 {
+			s.n = 33
+		}
 	}
 	return s
 }
@@ -932,7 +883,7 @@ func signedRoundTrip(x *mon.Ctx) {
 				continue
 			}
 			seedLibraryRand(c, x)
-			s := genSigned(c.R, t, []int{n})
+			s := genSigned(c.R, t, []int{n}, false)
 			c.Class("rt/%s/%s", classOfSigned(s), lenClass(n))
 			c.Detail("spec", s.String())
 			b, err := buildSigned(c, w, s)
@@ -963,9 +914,9 @@ func signedAlter(x *mon.Ctx) {
 		if i%9 == 8 {
 			lens = sweepLongLens
 		}
-		s := genSigned(c.R, i, lens)
+		s := genSigned(c.R, i, lens, true)
 		for _, g := range s.signers { // P-384 verification is slow: keep those sweeps short
-			if g.kind == kP384 && s.n > 33 {
+			if (g.kind == kP384 || len(s.signers) > 1) && s.n > 33 {
 				s.n = 33
 			}
 		}
